@@ -231,7 +231,11 @@ class Interp(EngineBase):
     def to_list(self, src, node):
         if isinstance(src, ListObj):
             self.bag_facts(src)
-            return ListObj(src.cnt, src.n, src.elem, False)
+            c_ = ListObj(src.cnt, src.n, src.elem, False)
+            if not src.isset:
+                c_._seq = src.seq       # a copy of a list has the same items at the same positions
+            c_.hash_ordered = getattr(src, 'hash_ordered', False) or src.isset
+            return c_
         if isinstance(src, PyList):
             return PyList(list(src.items))
         if isinstance(src, DictObj):
